@@ -1,0 +1,128 @@
+//go:build verif
+
+package meta
+
+// Contracts for /verif (gvc). Comment-only file; see /verif/DESIGN.md §5 (C11, C13, C14, C15, C16, C19).
+
+// ================================================================ shard groups: time predicates
+//@ prop C11 C14 C16
+
+//@ func (*ShardGroupInfo).Contains
+//@   requires sgi != nil
+//@   ensures result == (sgi.StartTime <= t && t < sgi.EndTime)
+//@   assigns nothing
+
+//@ func (*ShardGroupInfo).Overlaps
+//@   requires sgi != nil
+//@   ensures result == (sgi.StartTime <= max && sgi.EndTime > min)
+//@   assigns nothing
+
+//@ func (*ShardGroupInfo).Deleted
+//@   requires sgi != nil
+//@   ensures result == (sgi.DeletedAt != TIME_ZERO)
+//@   assigns nothing
+
+//@ func (*ShardGroupInfo).Truncated
+//@   requires sgi != nil
+//@   ensures result == (sgi.TruncatedAt != TIME_ZERO)
+//@   assigns nothing
+
+// a group that holds a row matching the query's time range is never skipped by the time filter
+//@ lemma contains_implies_overlaps(start Time, end Time, t Time, tmin Time, tmax Time)
+//@   requires start <= t && t < end && tmin <= t && t <= tmax
+//@   ensures  start <= tmax && end > tmin
+
+// ================================================================ C11: shard selection
+//@ prop C11
+
+//@ func (*ShardGroupInfo).ShardFor
+//@   requires sgi != nil
+//@   ensures len(aliveShardIdxes) == 0 ==> result == nil
+//@   ensures len(aliveShardIdxes) > 0 ==> result == sgi.Shards[aliveShardIdxes[hash % len(aliveShardIdxes)]]
+//@   assigns nothing
+
+//@ spec func si_contain(min string, max string, key string) bool = min <= key && (max == "" || key < max)
+
+//@ func ShardInfo.Contain
+//@   ensures result == si_contain(si.Min, si.Max, shardKey)
+//@   assigns nothing
+
+// DestShard returns the first shard whose key range contains the key, nil iff none does.
+//@ func (*ShardGroupInfo).DestShard
+//@   requires sgi != nil
+//@   ensures result != nil ==> (exists k int :: 0 <= k && k < len(sgi.Shards) && result == sgi.Shards[k] && si_contain(sgi.Shards[k].Min, sgi.Shards[k].Max, shardKey) && \
+//@                                (forall j int :: 0 <= j && j < k ==> !si_contain(sgi.Shards[j].Min, sgi.Shards[j].Max, shardKey)))
+//@   ensures result == nil ==> (forall j int :: 0 <= j && j < len(sgi.Shards) ==> !si_contain(sgi.Shards[j].Min, sgi.Shards[j].Max, shardKey))
+//@   assigns nothing
+//@   loop 1
+//@     invariant forall j int :: 0 <= j && j <= rangeindex ==> !si_contain(sgi.Shards[j].Min, sgi.Shards[j].Max, shardKey)
+
+// The group returned for a timestamp contains it, is live, has the requested engine type.
+//@ func (*RetentionPolicyInfo).ShardGroupByTimestampAndEngineType
+//@   requires rpi != nil
+//@   ensures result != nil ==> (exists k int :: 0 <= k && k < len(rpi.ShardGroups) && result == rpi.ShardGroups[k])
+//@   ensures result != nil ==> result.StartTime <= timestamp && timestamp < result.EndTime && result.DeletedAt == TIME_ZERO && result.EngineType == engineType
+//@   ensures result != nil ==> (result.TruncatedAt == TIME_ZERO || timestamp < result.TruncatedAt)
+//@   ensures result == nil ==> (forall k int :: 0 <= k && k < len(rpi.ShardGroups) ==> \
+//@        !(rpi.ShardGroups[k].EngineType == engineType && rpi.ShardGroups[k].StartTime <= timestamp && timestamp < rpi.ShardGroups[k].EndTime && rpi.ShardGroups[k].DeletedAt == TIME_ZERO && \
+//@          (rpi.ShardGroups[k].TruncatedAt == TIME_ZERO || timestamp < rpi.ShardGroups[k].TruncatedAt)))
+//@   assigns nothing
+//@   loop 1
+//@     invariant -1 <= i && i < len(rpi.ShardGroups)
+//@     invariant forall k int :: i < k && k < len(rpi.ShardGroups) ==> \
+//@        !(rpi.ShardGroups[k].EngineType == engineType && rpi.ShardGroups[k].StartTime <= timestamp && timestamp < rpi.ShardGroups[k].EndTime && rpi.ShardGroups[k].DeletedAt == TIME_ZERO && \
+//@          (rpi.ShardGroups[k].TruncatedAt == TIME_ZERO || timestamp < rpi.ShardGroups[k].TruncatedAt))
+//@     decreases i + 1
+
+// Completeness of the time-range selection: every live group overlapping [tmin,tmax] is returned.
+//@ func (*RetentionPolicyInfo).ShardGroupsByTimeRange
+//@   requires rpi != nil
+//@   ensures forall k int :: 0 <= k && k < len(rpi.ShardGroups) ==> \
+//@       (rpi.ShardGroups[k].DeletedAt == TIME_ZERO && rpi.ShardGroups[k].StartTime <= tmax && rpi.ShardGroups[k].EndTime > tmin ==> \
+//@          (exists m int :: 0 <= m && m < len(result) && result[m] == rpi.ShardGroups[k]))
+//@   loop 1
+//@     invariant forall k int :: 0 <= k && k <= rangeindex ==> \
+//@       (rpi.ShardGroups[k].DeletedAt == TIME_ZERO && rpi.ShardGroups[k].StartTime <= tmax && rpi.ShardGroups[k].EndTime > tmin ==> \
+//@          (exists m int :: 0 <= m && m < len(groups) && groups[m] == rpi.ShardGroups[k]))
+
+// ================================================================ C14: expiry at the catalogue
+//@ prop C14
+
+//@ spec func expired(end Time, dur int, now Time) bool = dur != 0 && end + dur < now
+
+// Only live groups whose whole span ended more than Duration before t are reported; unlimited policies report none.
+//@ func (*RetentionPolicyInfo).ExpiredShardGroups
+//@   requires rpi != nil
+//@   ensures forall m int :: 0 <= m && m < len(result) ==> \
+//@      result[m].DeletedAt == TIME_ZERO && expired(result[m].EndTime, rpi.Duration, t)
+//@   loop 1
+//@     invariant forall m int :: 0 <= m && m < len(groups) ==> \
+//@      groups[m].DeletedAt == TIME_ZERO && expired(groups[m].EndTime, rpi.Duration, t)
+
+//@ func (*ShardGroupInfo).canDelete
+//@   requires sgi != nil
+//@   ensures result ==> (forall k int :: 0 <= k && k < len(sgi.Shards) ==> sgi.Shards[k].MarkDelete)
+//@   ensures !result ==> (exists k int :: 0 <= k && k < len(sgi.Shards) && !sgi.Shards[k].MarkDelete)
+//@   assigns nothing
+//@   loop 1
+//@     invariant forall k int :: 0 <= k && k <= rangeindex ==> sgi.Shards[k].MarkDelete
+
+//@ func shardGroupDuration
+//@   ensures result > 0
+//@   assigns nothing
+
+//@ func normalisedShardDuration
+//@   ensures result > 0 || (sgd < 0 && result == sgd)
+//@   ensures sgd >= MinRetentionPolicyDuration ==> result == sgd
+//@   assigns nothing
+
+// Accepted specs: a limited duration is at least the minimum and at least one shard group long.
+//@ func (*RetentionPolicyInfo).checkGeqThanMinDuration
+//@   requires rpi != nil
+//@   ensures result == nil ==> (rpi.Duration == 0 || rpi.Duration >= MinRetentionPolicyDuration)
+//@   assigns nothing
+
+//@ func (*RetentionPolicyInfo).checkGeqThanShardGroupDuration
+//@   requires rpi != nil
+//@   ensures result == nil ==> (rpi.Duration == 0 || rpi.Duration >= rpi.ShardGroupDuration)
+//@   assigns nothing
